@@ -187,19 +187,25 @@ def _desc(seed, rng, sandbox, argv, meta):
     }
 
 
-def make_clean(rng, env, style):
-    """A file that is clean for the full rule set of this tree: fix a corpus file (up to 4 passes)
-    and keep it only if `vsg -ap` then reports nothing at all."""
+def make_clean(rng, env, style, cfg=None):
+    """A file that is clean under (style, cfg) on this tree: fix a corpus file (up to 4 passes)
+    under that configuration and keep it only if `vsg -ap` under the same configuration then reports
+    nothing at all.  With a skip_phase configuration the file may still violate rules of the skipped
+    phases - VSG does not report them, so --fix must not touch them either."""
     label, data = workload.pick_bytes(rng, rng.choice(["small"] * 6 + ["mid"] * 3))
     name = "src/c.vhd"
     opts = ["--style", style] if style else []
+    extra = []
+    if cfg:
+        extra = [workload.sb_entry("cfg.json", common.json_bytes(cfg))]
+        opts = opts + ["-c", "cfg.json"]
     for _ in range(4):
-        d = _desc(0, rng, [workload.sb_entry(name, data)], ["-p", "1", "--fix"] + opts + ["-f", name], {})
+        d = _desc(0, rng, [workload.sb_entry(name, data)] + extra, ["-p", "1", "--fix"] + opts + ["-f", name], {})
         r = env.run(d, keep_files=(name,))
         if r["status"] != "exit" or r["kept"].get(name) is None:
             return None
         new = r["kept"][name]
-        c = _desc(0, rng, [workload.sb_entry(name, new)], ["-p", "1", "-ap", "-of", "syntastic"] + opts + ["-f", name], {})
+        c = _desc(0, rng, [workload.sb_entry(name, new)] + extra, ["-p", "1", "-ap", "-of", "syntastic"] + opts + ["-f", name], {})
         rc = env.run(c)
         if rc["status"] != "exit":
             return None
@@ -210,7 +216,7 @@ def make_clean(rng, env, style):
                 # violation-free (verified by is_clean in judge), so still "no fixable violation"
                 nl = b"\r\n" if b"\r\n" in new else b"\n"
                 noisy = b"-- vsg_off" + nl + workload.layout_noise(rng, new, 0.3) + (b"" if new.endswith(nl) else nl) + b"-- vsg_on" + nl
-                c2 = _desc(0, rng, [workload.sb_entry(name, noisy)], ["-p", "1", "-ap", "-of", "syntastic"] + opts + ["-f", name], {})
+                c2 = _desc(0, rng, [workload.sb_entry(name, noisy)] + extra, ["-p", "1", "-ap", "-of", "syntastic"] + opts + ["-f", name], {})
                 r2 = env.run(c2)
                 s2 = runner.stream_of(r2)[0]
                 if r2["status"] == "exit" and not r2["end"]["exit"] and s2["o"].strip() == "" and s2["e"].strip() == "":
@@ -225,10 +231,17 @@ def make_clean(rng, env, style):
 def gen_c(seed, env):
     rng = substream(seed, "c04c")
     style = rng.choice(workload.STYLES)
+    cfg = {}
+    if rng.random() < 0.35:
+        # configuration that names no rule: linesep and/or skipped phases
+        if rng.random() < 0.6:
+            cfg["linesep"] = rng.choice(["\n", "\r\n"])
+        if rng.random() < 0.6:
+            cfg["skip_phase"] = sorted(rng.sample(range(1, 8), rng.randint(1, 3)))
     k = rng.randint(1, 3)
     sandbox, names, meta = [], [], []
     for i in range(k):
-        got = make_clean(rng, env, style)
+        got = make_clean(rng, env, style, cfg or None)
         if got is None:
             continue
         label, data = got
@@ -253,16 +266,9 @@ def gen_c(seed, env):
         argv += ["--style", style]
     if rng.random() < 0.2:
         argv += ["-fp", str(rng.randint(1, 7))]
-    if rng.random() < 0.3:
-        # configuration that does not touch any rule: a clean file stays clean under it
-        cfg = {}
-        if rng.random() < 0.7:
-            cfg["linesep"] = rng.choice(["\n", "\r\n"])
-        if rng.random() < 0.4:
-            cfg["skip_phase"] = sorted(rng.sample(range(1, 8), rng.randint(1, 2)))
-        if cfg:
-            sandbox.append(workload.sb_entry("cfg.json", common.json_bytes(cfg)))
-            argv += ["-c", "cfg.json"]
+    if cfg:
+        sandbox.append(workload.sb_entry("cfg.json", common.json_bytes(cfg)))
+        argv += ["-c", "cfg.json"]
     argv += ["-f"] + names
     return _desc(seed, rng, sandbox, argv, {"class": "c", "files": meta, "style": style})
 
